@@ -89,6 +89,17 @@ def cases(tier: str, seed: int) -> List[Dict[str, Any]]:
             out.append({"kind": "track", "prog": {"items": [["op", "linear:nn"], ["op", k]], "first": "x",
                                                   "sink": "two_outputs" if n % 2 else "sum"},
                         "backward": calls[-1] == "fb", "calls": calls, "seed": seed})
+    # histories with a recompilation: a Python switch in forward() is flipped between calls, so the second
+    # call is compiled to a smaller (on -> off) or larger (off -> on) graph; and higher-order differentiation
+    for n, k in enumerate(KEYS):
+        for calls in (["fb", "fb-"], ["fb-", "fb"], ["f", "fb-"], ["fb", "f-"]):
+            out.append({"kind": "track", "prog": {"items": [["op", "linear:nn"], ["op", k]], "first": "x", "flag_tail": True,
+                                                  "sink": "two_outputs" if n % 2 else "sum"},
+                        "backward": calls[-1].startswith("fb"), "calls": calls, "seed": seed})
+        out.append({"kind": "track", "prog": {"items": [["op", "linear:nn"], ["op", k], ["op", "tanh"]], "first": "x", "sink": "sum"},
+                    "backward": True, "calls": ["dd"], "seed": seed})
+        out.append({"kind": "track", "prog": {"items": [["op", k], ["op", "linear:F_bias_kw"]], "first": "x", "sink": "two_outputs"},
+                    "backward": True, "calls": ["fb", "dd"], "seed": seed})
     # tier A: the tracking backend called directly on FX graphs emitted from the AST (deeper programs)
     from models.programs import chains
 
@@ -196,6 +207,8 @@ def run_case(case: Dict[str, Any]) -> Dict[str, Any]:
     except Exception as e:  # noqa
         v = exception_violation(e, ident)
         return {"violations": [v], "outcome": "raises"}
+    if "skipped" in r:
+        return {"skipped": r["skipped"]}
     if case.get("calls"):
         ident += "|calls=" + ">".join(case["calls"])
     src = r["src"]
@@ -210,7 +223,8 @@ def run_case(case: Dict[str, Any]) -> Dict[str, Any]:
             return ""
         if a.shape == b.shape:
             sc = max(float(b.abs().max()), 1e-30)
-            if float((a - b).abs().max()) <= 1e-5 * sc:
+            # (a gradient that is zero in exact arithmetic, e.g. d sum(softmax)/dx, is rounding noise of size ~eps)
+            if float((a - b).abs().max()) <= 1e-5 * sc + 64 * torch.finfo(b.dtype).eps:
                 return "_changed_last_bits"
         return "_changed"
 
@@ -222,8 +236,13 @@ def run_case(case: Dict[str, Any]) -> Dict[str, Any]:
             if d:
                 viol.append({"key": ident + "|output" + d, "msg": f"max abs diff {(a - b).abs().max().item() if a.shape == b.shape else 'shape'}\n" + src})
                 break
+    dd = bool(case.get("calls")) and case["calls"][-1].startswith("dd")
     for n, b in r["g_plain"].items():
         d = differ(r["g_t"].get(n), b)
+        if dd and d == "_changed_last_bits":
+            # second-order gradients: the extra identity nodes change the order in which the autograd engine
+            # accumulates fan-out contributions of the double-backward graph (float addition is not associative)
+            continue
         if d:
             viol.append({"key": ident + "|gradient" + d, "msg": f"{n}\n" + src})
             break
@@ -232,6 +251,10 @@ def run_case(case: Dict[str, Any]) -> Dict[str, Any]:
             viol.append({"key": ident + "|requires_grad_changed", "msg": f"parameters (original, tracked) {r['flags']['params']} buffers {r['flags']['buffers']}\n" + src})
     # (2)/(3) metrics
     nfloat = 0
+    if case.get("calls") and case["calls"][-1].startswith("dd"):
+        # higher-order differentiation: only "purely observational" is decided (first and second gradients)
+        return {"violations": viol[:3], "steps": 4, "nontrivial": any(v is not None for k, v in r["g_plain"].items() if k.startswith("second")),
+                "outcome": "double_backward:" + ("ok" if not viol else "bad")}
     for node in r["graph"].nodes:
         if node.op == "output":
             continue
